@@ -17,6 +17,11 @@ class Injected(ValueError, IndexError, KeyError, ZeroDivisionError, TypeError, A
         return self.args[0] if self.args else 'injected fault'
 
 
+class InjectedInterrupt(KeyboardInterrupt):
+    """A fault that is not an Exception subclass (Ctrl-C arriving inside a callback, SystemExit from a worker): a caller that
+    catches it and resumes the stream must find the estimates untouched as well."""
+
+
 class InjectedStop(StopIteration):
     """A user callback may also raise StopIteration (e.g. next() on an exhausted stream); iterator plumbing such as
     list(map(...)) or generators silently absorbs it."""
@@ -84,6 +89,7 @@ class Model:
     """
     CTX = 'zz_ctx'
     positional = False
+    sparse_ok = False        # True: an absent feature means the value 0 (sparse encoding, collections.defaultdict observations)
 
     def __init__(self, names, kind='scalar', ignored=None, log=None, inj=None, conv=None):
         self.names = list(names)
@@ -101,6 +107,8 @@ class Model:
         ctx = x.get(self.CTX, 0) if hasattr(x, 'get') else 0
         if self.positional:
             vals = tuple(v for k, v in x.items() if k != self.CTX)[:len(self.names)]
+        elif self.sparse_ok:
+            vals = tuple(x[n] if n in x else F(0) for n in self.names)
         else:
             vals = tuple(x[n] for n in self.names)
         key = (self.kind, self.ignored, self.conv, vals, ctx)
@@ -137,7 +145,7 @@ class Model:
 
     def _complete(self, x):
         missing = [n for n in self.names if n not in x]
-        if missing:
+        if missing and not self.sparse_ok:
             from .choice import CURRENT_PID, Violation
             raise Violation(f"{CURRENT_PID[0]}/model-input-incomplete",
                             f"the model was evaluated on {dict(x)}, which lacks the feature(s) {missing} (every model "
@@ -238,6 +246,11 @@ def make_imputer_spy(inner, log, inj=None):
         def __init__(self):
             super().__init__(model_function=inner.model_function)
             self.inner = inner
+
+        def __len__(self):
+            # a user imputer may define __len__ (e.g. the number of background rows it can draw from) and be "falsy" when
+            # the explainer is built: the library must test `is None`, never truthiness
+            return 0
 
         def __getattr__(self, name):
             # transparent for everything else (storage_object, sampling_strategy, values, ...): library code that looks at
